@@ -80,7 +80,10 @@ InWindow(x) ==
 LimitsAllow(x) ==
     /\ (EffCount = -1 \/ EffCount > count)
     /\ InWindow(x)
-    /\ (last = 0 \/ x - last >= EffPeriod)
+    \* (a hit can be OVERTAKEN: its time is taken when it arrives, another thread that arrived later may have fired
+    \* meanwhile, so x < last. With a period the refusal of such a hit is the safe side of "never less than the period
+    \* apart"; with no period at all - every hit is wanted - there is nothing to be safe about)
+    /\ (last = 0 \/ EffPeriod = 0 \/ x - last >= EffPeriod)
 
 CondTrue(c) == c \in {"none", "blank", "true"}
 
